@@ -14,11 +14,14 @@ for mf in sorted(glob.glob(os.path.join(here, "seeded", "*", "meta.json"))):
         if e.get("violation_classes"):
             cls = e["violation_classes"][0]
             break
-    rows.append((sid, m["property"], m.get("summary", m["needs_to_manifest"])[:150], ", ".join(caught) or "-", ", ".join(missed) or "-", cls[:90]))
-print("| seeded change | property | what it needs to manifest | caught by | silent | first violation class |")
+    hist = m.get("first_evaluation", "")
+    if m.get("strengthening"):
+        hist += " -> " + m["strengthening"]
+    rows.append((sid, m["property"], m.get("summary", m["needs_to_manifest"])[:160].replace("|", "/"), ", ".join(caught) or "-", ", ".join(missed) or "-", hist.replace("|", "/")))
+print("| seeded change | property | what it needs to manifest | caught by (current checks) | silent | as first delivered / what was strengthened |")
 print("|---|---|---|---|---|---|")
 for r in rows:
-    print("| %s | %s | %s | %s | %s | `%s` |" % r)
+    print("| %s | %s | %s | %s | %s | %s |" % r)
 n = len(rows)
 c = sum(1 for r in rows if r[3] != "-")
 print("\n%d seeded changes, %d caught by at least one registered check command." % (n, c))
